@@ -123,7 +123,7 @@ func natStringsJoin(fr *frame, fn *ssa.Function, args []value) value {
 	for _, p := range parts {
 		switch p.(type) {
 		case string:
-		case tabstr:
+		case tabstr, symstr:
 			symbolic = true
 		default:
 			panic(engineAbort{fmt.Sprintf("strings.Join over %T", p)})
@@ -164,6 +164,19 @@ func natStringsFields(fr *frame, fn *ssa.Function, args []value) value {
 			case string:
 				for _, f := range strings.Fields(p) {
 					out = append(out, f)
+				}
+			case symstr:
+				// every byte must be provably non-space ASCII
+				i := fr.i
+				for _, b := range p {
+					t := i.tt.toTerm(b)
+					ok := i.tt.And(i.tt.Cmp("bvult", i.tt.ConstU(8, 0x20), t), i.tt.Cmp("bvult", t, i.tt.ConstU(8, 0x7f)))
+					if !i.decide(ok, "strings.Fields: symbolic byte is printable non-space ASCII") {
+						panic(engineAbort{"strings.Fields over a symbolic string that may contain whitespace or non-ASCII bytes"})
+					}
+				}
+				if len(p) > 0 {
+					out = append(out, p)
 				}
 			}
 		}
@@ -209,7 +222,87 @@ func (i *interpreter) tabLookup(m *hashmap, k tabstr) (value, bool, bool) {
 	return nil, false, false
 }
 
+// mapTable applies a pure string function to every element of a table.
+func (i *interpreter) mapTable(t *strTable, name string, f func(string) string) *strTable {
+	key := fmt.Sprintf("%p/%s", t, name)
+	if i.derived == nil {
+		i.derived = map[string]*strTable{}
+	}
+	if d, ok := i.derived[key]; ok {
+		return d
+	}
+	d := &strTable{index: map[string]int{}, distinct: true, clean: true}
+	same := true
+	for k, s := range t.elems {
+		r := f(s)
+		if r != s {
+			same = false
+		}
+		d.elems = append(d.elems, r)
+		if _, dup := d.index[r]; dup {
+			d.distinct = false
+		}
+		d.index[r] = k
+		if r == "" || strings.IndexFunc(r, unicode.IsSpace) >= 0 {
+			d.clean = false
+		}
+	}
+	if same {
+		d = t
+	}
+	i.derived[key] = d
+	return d
+}
+
+func natStringMap(name string, f func(string) string, bytef func(i *interpreter, b value) value) nativeFn {
+	return func(fr *frame, fn *ssa.Function, args []value) value {
+		i := fr.i
+		switch s := args[0].(type) {
+		case string:
+			return f(s)
+		case tabstr:
+			return tabstr{i.mapTable(s.tab, name, f), s.idx}
+		case symstr:
+			if bytef == nil {
+				break
+			}
+			out := make([]value, len(s))
+			for k, b := range s {
+				// ASCII only: a byte >= 0x80 would start a multi-byte rune
+				if sb, ok := b.(sym); ok {
+					if i.decide(i.tt.Not(i.tt.Cmp("bvult", sb.t, i.tt.ConstU(8, 0x80))), name+": non-ASCII byte") {
+						panic(engineAbort{name + " on a symbolic non-ASCII string"})
+					}
+				} else if b.(uint8) >= 0x80 {
+					panic(engineAbort{name + " on a symbolic non-ASCII string"})
+				}
+				out[k] = bytef(i, b)
+			}
+			return mkstr(out)
+		}
+		panic(engineAbort{fmt.Sprintf("%s of %T", name, args[0])})
+	}
+}
+
+func lowerByte(i *interpreter, b value) value {
+	tt := i.tt
+	t := tt.toTerm(b)
+	isUp := tt.And(tt.Cmp("bvule", tt.ConstU(8, 'A'), t), tt.Cmp("bvule", t, tt.ConstU(8, 'Z')))
+	return mkval(tt.Ite(isUp, tt.BV("bvadd", t, tt.ConstU(8, 32)), t), types.Uint8)
+}
+
+func upperByte(i *interpreter, b value) value {
+	tt := i.tt
+	t := tt.toTerm(b)
+	isLo := tt.And(tt.Cmp("bvule", tt.ConstU(8, 'a'), t), tt.Cmp("bvule", t, tt.ConstU(8, 'z')))
+	return mkval(tt.Ite(isLo, tt.BV("bvsub", t, tt.ConstU(8, 32)), t), types.Uint8)
+}
+
 func init() {
+	natives["strings.ToLower"] = natStringMap("strings.ToLower", strings.ToLower, lowerByte)
+	natives["strings.ToUpper"] = natStringMap("strings.ToUpper", strings.ToUpper, upperByte)
+	natives["strings.TrimSpace"] = natStringMap("strings.TrimSpace", strings.TrimSpace, nil)
+	natives["strings.Title"] = natStringMap("strings.Title", strings.Title, nil)
 	natives["strings.Join"] = natStringsJoin
 	natives["strings.Fields"] = natStringsFields
 }
